@@ -28,7 +28,7 @@ TIMEOUT = {"quick": 900, "thorough": 3600}
 N_HIST = {"quick": 3, "thorough": 40}
 N_STRACE = {"quick": 1, "thorough": 8}
 MUTATORS = {"insert", "insert_multiple", "update", "update_all", "remove", "remove_all", "drop_measurement"}
-AFTER_EFFECT = {"flush", "fsync", "close", "truncate", "replace", "rename"}
+AFTER_EFFECT = {"flush", "fsync", "close"}  # the property's quantifier: only these can fail after having taken effect
 
 
 class Injected(OSError):
@@ -462,8 +462,17 @@ def run(res, tier, seed, shard, nshards):
 
 
 def finalize(res, tier):
-    for k in ("primary.write.before", "primary.flush.before", "primary.flush.after", "primary.fsync.before", "primary.truncate.before", "temp.write.before"):
-        res.require(f"fault_kind.{k}")
+    # reach gates by role, not by the exact call an implementation happens to use
+    def any_of(label, keys):
+        n = sum(res.counters.get(f"fault_kind.{k}", 0) for k in keys)
+        res.counters[f"fault_role.{label}"] = n
+        res.require(f"fault_role.{label}")
+
+    any_of("primary.write", ["primary.write.before"])
+    any_of("primary.make_durable.before", ["primary.flush.before", "primary.fsync.before"])
+    any_of("primary.make_durable.after", ["primary.flush.after", "primary.fsync.after"])
+    any_of("rewrite.stage", ["temp.write.before", "temp.flush.before", "temp.fsync.before", "temp.tmp_create.before", "temp.open.before"])
+    any_of("rewrite.publish", ["primary.replace.before", "primary.rename.before"])
     if sysmon.available():
         res.require("strace.faults_injected")
 
